@@ -281,6 +281,11 @@ def handle (op : String) (args : List String) : String :=
       | .ok (e', _) => okE e'
       | .error err => "err\t" ++ err.render)
     | _, _ => bad
+  | "simpCk", [c, e] => match c.toNat?, parseExpr e with
+    | some c, some e => (match simplifyCk (400 * e.size + 400) c e with
+      | .ok (e', _) => okE e'
+      | .error err => "err\t" ++ err.render)
+    | _, _ => bad
   | "backend", [c, e] => match c.toNat?, parseExpr e with
     | some c, some e => (match backend (400 * e.size + 800) c e with
       | .ok e' => okE e'
